@@ -32,6 +32,7 @@ def work(slot, items, props):
     try:
         for sid, patch in items:
             subprocess.check_call(["git", "-C", wt, "checkout", "-q", "--", "."])
+            subprocess.check_call(["git", "-C", wt, "clean", "-fdq"])
             r = subprocess.run(["git", "-C", wt, "apply", "--whitespace=nowarn", patch], stdout=subprocess.PIPE, stderr=subprocess.STDOUT, text=True)
             if r.returncode != 0:
                 out[sid] = {"<apply>": [r.stdout[-200:]]}
